@@ -38,7 +38,7 @@ CONFIG = {
                    'it must agree.'),
     'deciding': ['c04.R1', 'c04.R2', 'c04.R3', 'c04.R4', 'c04.R5', 'c04.L'],
     'shards': {'quick': 16, 'thorough': 16},
-    'hashseeds': {'quick': 2, 'thorough': 4},
+    'hashseeds': {'quick': 4, 'thorough': 8},
     'min_evals': {'quick': {'c04.R1': 2000, 'c04.R2': 1000, 'c04.R3': 3000,
                             'c04.R4': 2000, 'c04.R5': 3000, 'c04.L': 500},
                   'thorough': {'c04.R1': 40000}},
@@ -46,7 +46,7 @@ CONFIG = {
                  'R1:cast', 'R5:EU', 'R5:AU', 'R5:ER', 'R5:AR', 'R5:EG',
                  'R5:AG', 'R5:EF', 'R5:AF', 'R4:ctls', 'R2:synonyms_spacing', 'R2:nary_text',
                  'family:A_and_E_same_path', 'family:ltl_depth2_routes',
-                 'R1:object_reuse', 'R2:nary4'],
+                 'R1:object_reuse', 'R2:nary4', 'family:unary_over_binary_raw'],
     'rule': ('cases = relation instances (relation, structure, formula or '
              'pair of formulas); structures: class representatives with <=2 '
              'states (quick: plus a sample of 3-state ones; thorough: all) '
@@ -430,6 +430,36 @@ def run(ctx):
             r1_ctl_ctls(nk, K, t, i)
             r1_ctl_ctls(nk, K, t, 4 * (i // 4))          # with casts
             i += 1
+        # a unary temporal operator over a binary operator whose operands are
+        # raw strings, under several atom namings (the tableau's processing
+        # order depends on the names' hashes): all construction routes agree
+        if si % 3 == 0:
+            names = [('p', 'q'), ('q', 'p'), ('a', 'b'), ('x1', 'x2'),
+                     ('alpha', 'beta'), ('Start', 'Heat'), ('b', 'a')]
+            from ..neutral import rename_atoms
+            for un in ('X', 'F', 'G'):
+                for bop in ('U', 'R', 'or', 'and', 'imply'):
+                    n1, n2 = names[(i + len(un) + len(bop)) % len(names)]
+                    g = (un, (bop, ('ap', 'p'), ('ap', 'q')))
+                    t2 = ('A', g)
+                    ren = {'p': n1, 'q': n2}
+                    K2 = mcwork.kripke_of(NK(nk.states, nk.succ, [
+                        frozenset(ren.get(a, a) for a in l)
+                        for l in nk.labels]))
+                    t3 = rename_atoms(t2, ren)
+                    LOG.sig['family:unary_over_binary_raw'] += 1
+                    rs = [call('LTL', K2, obj('LTL', t3, raw=True)),
+                          call('LTL', K2, obj('LTL', t3, raw=False)),
+                          call('LTL', K2, mcwork.text_of('LTL', t3)),
+                          call('CTLS', K2, obj('CTLS', t3, raw=True))]
+                    # the CTL entry point only applies to CTL-shaped formulas
+                    if reflang.checkable(t3, 'CTL'):
+                        rs.append(call('CTL', K2, obj('CTL', t3, raw=True)))
+                    relate('R2', 'ltl_routes', nk, K2, [t3], rs,
+                           lambda r, S: all(x == r[0] for x in r),
+                           'raw-leaf object = wrapped object = text = other '
+                           'entry points')
+                    i += 1
         # depth-2 LTL formulas: raw-leaf objects, wrapped objects, text and
         # the CTL* entry point
         for g in rr.sample(P2, 5 if ctx.quick else 12):
